@@ -20,6 +20,8 @@ type Ctx struct {
 	guardDepth int // recursion guard of nameGuard
 
 	anchorsSeen map[string]bool
+
+	strictLoop bool // limitChecked: a check inside the loop of the guarded call does not count
 	// VerifDir is /verif (fixtures, mutants).
 	VerifDir string
 
